@@ -386,7 +386,7 @@ def mutants(mb):
     mb.add_text("union-assert-flipped", M, "                error = merge_errors(error, err)\n        assert error is not None\n        raise error\n\n\n@dataclass\nclass ConversionMethod", "                error = merge_errors(error, err)\n        assert error is None\n        raise error\n\n\n@dataclass\nclass ConversionMethod", "C03.R1", "UnionMethod")
     mb.add_text("discriminator-unknown-attr", M, "            return method.deserialize(Discriminated(self.alias, data))", "            return method.deserialize(Discriminated(self.name, data))", "C03.R1", "DiscriminatorMethod")
     # reverse of the fix: commits
-    mb.add_text("literal-indexerror", M, "                    except (KeyError, TypeError):\n                        pass", "                    except IndexError:\n                        pass", "C03.R", "LiteralMethod")
+    mb.add_text("literal-indexerror", M, "                    except (KeyError, TypeError, ValidationError):\n", "                    except IndexError:\n", "C03.R", "LiteralMethod")
     mb.add_text("literal-no-typeerror", M, "        except TypeError:\n            raise bad_type(data, *self.types)", "        except AttributeError:\n            raise bad_type(data, *self.types)", "C03.R", "LiteralMethod")
     mb.add_text("coerce-bool-keyerror", C, "            try:\n                return STR_TO_BOOL[data.lower()]  # type: ignore\n            except KeyError:\n                raise bad_type(data, cls)\n", "            return STR_TO_BOOL[data.lower()]  # type: ignore\n", "C03.R1", "coerce")
     mb.add_text("coerce-valueerror-only", C, "        except (ValueError, TypeError, OverflowError):", "        except ValueError:", "C03.R1", "coerce")
@@ -422,5 +422,5 @@ def mutants(mb):
                 "        try:\n            value = data[self.alias]\n        except KeyError:\n            raise ValidationError([], {self.alias: ValidationError(self.missing)})\n        try:\n            method: DeserializationMethod = self.mapping[value]\n        except (TypeError, KeyError):", "C03.R1", "DiscriminatorMethod")
     # negatives
     mb.add_text("neg-guard-else-form", M, "        if not isinstance(data, str):\n            raise bad_type(data, str)\n        return data", "        if isinstance(data, str):\n            return data\n        else:\n            raise bad_type(data, str)", negative=True)
-    mb.add_text("neg-broader-handler", M, "                    except (KeyError, TypeError):\n                        pass", "                    except (LookupError, TypeError):\n                        pass", negative=True)
+    mb.add_text("neg-broader-handler", M, "                    except (KeyError, TypeError, ValidationError):\n", "                    except (LookupError, TypeError, ValidationError):\n", negative=True)
     mb.add_text("neg-local-rename", C, "def coerce(cls: Type[T], data: Any) -> T:", "def coerce(cls: Type[T], data: Any, _unused: Any = None) -> T:", negative=True)
